@@ -5,6 +5,7 @@ import CasbinVerif.Driver.KeyMatch
 import CasbinVerif.Driver.Config
 import CasbinVerif.Driver.Cached
 import CasbinVerif.Driver.Sync
+import CasbinVerif.Driver.Lin
 /-
   casbin-model: the line-protocol driver.  Reads one operation per line on stdin and prints, for
   every line, `<model observation> ;; <spec observation> ;; <wf>` where `wf` tells whether the line
@@ -18,6 +19,7 @@ structure DState where
   store : StoreSt := {}
   enf : EnfSt := {}
   cached : CachedSt := {}
+  lin : LinSt := {}
 
 def fmt (m s : String) (wf : Bool) : String := s!"{m} ;; {s} ;; {if wf then 1 else 0}"
 
@@ -40,6 +42,10 @@ def stepLine (st : DState) (line : String) : DState × String :=
     else if comp == "enforcer" then
       match enfOp st.enf ts with
       | some (s', m, s, wf) => ({ st with enf := s' }, fmt m s wf)
+      | none => (st, "bad-op")
+    else if comp == "lin" then
+      match linOp st.lin ts with
+      | some (s', m, s, wf) => ({ st with lin := s' }, fmt m s wf)
       | none => (st, "bad-op")
     else if comp == "sync" then
       match syncOp ts with
